@@ -206,6 +206,23 @@ CHECKS = {
               'branch-and-bound does not return on infeasible integer programs under the interface\'s 1e8 iteration limit - a hang cannot be judged) and '
               'Gurobi runs with TimeLimit 10 s. Interfaces without an installed solver (CyLP, CPLEX, Mosek, COPT) are not claimed. Submitted-program capture '
               'at the external solver API is not implemented; translation errors are caught through x |= P, value agreement and the brute-force optimum.')),
+    'C12': dict(
+        level='model_checking',
+        technique='TLC-enumerated solved scenes with per-query denotations (Query.tla) and adapt()/event histories (Query.tla, Partition.tla) replayed into rsome.ro / rsome.dro; every query result compared with the value the specification defines for it',
+        design_ref='DESIGN.md 5/C12, 2.1',
+        text=('Query.tla defines what each query denotes over an abstract solved state: decision arrays of five shapes declared in every order (column '
+              'offsets, NumPy selector index arithmetic in TLA+), ro decision rules under every history of y[sel].adapt(z[sel]) (dependency matrix, '
+              'coefficient-variable rank map, NaN mask), bi-affine expressions called with realisations (unspecified = 0), k*atom + c chains for 30 atoms in '
+              'both front ends (transcription of Convex.__mul__/__neg__/__add__/__call__ against the ghost meaning K*f + C, exact rationals), and event-wise '
+              'dro decisions on int/str/non-positional labels incl. scenario-wise realisations. TLC checks CodeIsIdeal / DepExact / EventsExact on the '
+              'transcription of the repaired code and exports, per query, the ideal value and the named alternatives of the unrepaired code; each scene is '
+              'built with every entry/coefficient pinned to a distinct integer, solved, and every query (x.get, x[sel].get, x[sel](), (k*x[sel]+c)(), '
+              '(A@x)(), y.get(z[sel]), y(z.assign(v)), expr(...), model.get) compared with the ideal. Partition.tla histories are replayed for the '
+              'per-scenario label / Series index / NaN-pattern clauses.'),
+        note=('Trusted: TLC, closed forms of the atoms in replay_query.ATOMS, HiGHS on the pinning LPs (1e-6, x10 margin); selector semantics cross-checked '
+              'against NumPy each run. Bounded: <=3 arrays of <=2 dims, rules/decisions 1-D of <=3 entries, <=3 adapt calls, chains <=3, NS<=4. Eleven defects '
+              'were repaired by fix: commits; the summed-atom evaluation is a known finding (same root cause as the C06 one). logdet/rootdet, maxof/minof '
+              '(no __call__), 2-D decision rules and nested slices are not generated.')),
     'C13': dict(
         level='model_checking',
         technique='TLC model checking of Partition.tla + replay of every exported history into rsome.dro + TLC trace validation',
